@@ -62,6 +62,11 @@ OVERLAP = [('#program always.\n{ p }.\nq :- not not &tel { < p }.', '#program al
            ('#program always.\n{ a }.\n&tel { > b | a }.', '#program always.\n{ c; a }.\n&tel { > b | a } :- c.'),
            ('#program always.\n{ p }.\nq :- not &del { * &true .>? p }.', '#program always.\n{ r; p }.\nq :- not &del { * &true .>? p }, r.'),
            ("#program always.\n{ p }.\n#program dynamic.\nq :- 'p, not &tel { < < p }.", "#program always.\n{ r }.\n{ p }.\n#program dynamic.\nq :- 'r, not &tel { < < p }.")]
+# ... and pairs that share path expressions over atoms (iteration, choice, sequence, test) while the atoms are numbered differently in the two programs
+OVERLAP += [('#program always.\n{ p; x }.\nq :- not &del { * p .>? x }.', '#program always.\n{ r; q; p }.\nw :- not not &del { * p .>? q }.'),
+            ('#program always.\n{ p; x }.\nq :- not &del { * (? p ;; &true) .>* x }.', '#program always.\n{ r }.\n{ x; p }.\nw :- not &del { * (? p ;; &true) .>* x }, r.'),
+            ('#program always.\n{ p; x }.\nq :- not &del { ? p + x .>? x }.', '#program always.\n{ x; r; p }.\nw :- not not &del { ? p + x .>? r }.'),
+            ('#program always.\n{ p; x }.\nq :- not &del { p ;; ? x .>? p }.', '#program always.\n{ r; x; p }.\nw :- not not &del { p ;; ? x .>* r }.')]
 
 
 def canon(r):
@@ -147,6 +152,17 @@ def run(ctx):
         if canon(ra) != fresh[a] or canon(rb) != fresh[b]:
             cex.append({'key': 'c14:overlap:%d:%s' % (at, a.replace('\n', ' ')), 'what': 'two overlapping runs (the second started from the model callback of the first at step %d): %s differs from a fresh process' % (
                 at, 'the outer run' if canon(ra) != fresh[a] else 'the inner run'), 'input': {'ops': rq['ops'], 'threads': 1, 'kind': 'overlap', 'H': H, 'a': a, 'b': b}})
+    # the same pairs one after the other in one process (A, B, A again): nothing an earlier run built may be reused by a later one
+    sq_reqs = [{'cmd': 'history', 'ops': [['solve', [a], H], ['solve', [b], H], ['solve', [a], H]], 'threads': 1} for a, b in OVERLAP + [(b, a) for a, b in OVERLAP]]
+    for rq, r in zip(sq_reqs, ctx.impl(hashseed=seeds[0]).run(sq_reqs, timeout=240)):
+        if r.get('status') != 'ok':
+            cex.append({'key': 'c14:history-run', 'what': 'history run fails: %s' % json.dumps({k: r.get(k) for k in ('status', 'type', 'msg')}), 'input': {'ops': rq['ops'], 'threads': 1, 'kind': 'history'}})
+            continue
+        for op, x in zip(rq['ops'], r['results']):
+            if canon(x) != fresh[op[1][0]]:
+                cex.append({'key': 'c14:sequence:' + ' / '.join(o[1][0] for o in rq['ops'][:2]).replace('\n', ' '), 'what': 'run of %r after other runs in the same process differs from a fresh process' % op[1][0],
+                            'input': {'ops': rq['ops'], 'threads': 1, 'kind': 'history', 'H': H}})
+                break
     hres = ctx.impl(hashseed=seeds[0]).run(hist_reqs, timeout=240)
     for (idx, ops, threads), r in zip(metas, hres):
         if r.get('status') != 'ok':
@@ -158,7 +174,7 @@ def run(ctx):
                 cex.append({'key': 'c14:history:' + ' '.join(op[1]).replace('\n', ' '), 'what': '%s in a long-lived process (%d threads, after other calls) differs from the result of a fresh process' % (op[0], threads),
                             'input': {'ops': ops, 'threads': threads, 'kind': 'history', 'H': H}})
                 break
-    cov = {'evaluations': len(progs) * 2 * len(seeds) + sum(len(m[1]) for m in metas) + sum(len(q['ops']) for q in rej_reqs) + 2 * len(ov_reqs), 'overlapping_runs': len(ov_reqs), 'rejected_then_valid_histories': len(rej_reqs), 'distinct_nontrivial': len(nontriv), 'slow_programs_not_solved_in_histories': len(slow),
+    cov = {'evaluations': len(progs) * 2 * len(seeds) + sum(len(m[1]) for m in metas) + sum(len(q['ops']) for q in rej_reqs) + 2 * len(ov_reqs) + 3 * len(sq_reqs), 'overlapping_runs': len(ov_reqs), 'sequential_pair_histories': len(sq_reqs), 'rejected_then_valid_histories': len(rej_reqs), 'distinct_nontrivial': len(nontriv), 'slow_programs_not_solved_in_histories': len(slow),
            'rule': 'programs with 3-6 future predicates (arguments, classical negation), look-ahead constraints of depth <= 3, head formulas and body formulas, split over 1-3 input texts; '
                    'transform output and answer sets (horizons 0..%d) compared across PYTHONHASHSEED in %s (fresh interpreters), %d random histories of 12 calls in one process (half of them '
                    'interleaved in 3 threads), and %d fixed histories "rejected input, then 8 valid programs translated and solved, then the rejected input again"; non-trivial = distinct accepted program with at least one answer set' % (H, seeds, nh, len(REJECTED)),
